@@ -1140,7 +1140,7 @@ func runC13(r *Run, rng *Rng, replay string) {
 			}
 		}
 	}
-	nRand := 1500
+	nRand := 4000
 	if thorough {
 		nRand = 40000
 	}
@@ -1178,7 +1178,7 @@ func runC13(r *Run, rng *Rng, replay string) {
 		c13cfb(r, []int{4096, n})
 		c13cfb(r, []int{n, 248})
 	}
-	nCfb := 60
+	nCfb := 150
 	if thorough {
 		nCfb = 600
 	}
@@ -1225,7 +1225,7 @@ func runC13(r *Run, rng *Rng, replay string) {
 		n := sizes[(i*7+int(r.Seed))%len(sizes)]
 		c13enc(r, rng, p, n, i, i%2)
 	}
-	nEnc := 70
+	nEnc := 100
 	if thorough {
 		nEnc = 1500
 	}
